@@ -3,6 +3,7 @@
 package world
 
 import (
+	"verif/fold"
 	"fmt"
 	"hash/fnv"
 	"math"
@@ -206,6 +207,16 @@ func (w *World) newName(prefix string) string {
 
 var oddTableNames = []string{"My Table", "tä", "select", "T", "x.y", "tbl-1", "日本", "order"}
 
+func unicodeTwin(n string) string {
+	if fold.IsASCII(n) {
+		return n
+	}
+	if u := strings.ToUpper(n); fold.Lower(u) != fold.Lower(n) {
+		return fold.Lower(u)
+	}
+	return strings.ToLower(n)
+}
+
 func (w *World) tableNames() []string {
 	var out []string
 	if w.Snap != nil {
@@ -222,13 +233,21 @@ func (w *World) CreateTable() {
 	name := w.newName("t")
 	if w.Prof.Fancy > 0 && s.Chance(w.Prof.Fancy, 40, "oddtname") {
 		name = oddTableNames[s.Draw(len(oddTableNames), "oddt")] + fmt.Sprint(w.seq)
+		// a twin of an existing table whose name differs only in the case of a non-ASCII
+		// letter: two different tables for SQLite, which folds A-Z only
+		for _, tn := range w.tableNames() {
+			if tw := unicodeTwin(tn); tw != tn && w.Snap.Table(tw) == nil && s.Chance(1, 2, "twintable") {
+				name = tw
+				break
+			}
+		}
 	}
 	wr := s.Chance(w.Prof.WithoutRow, 10, "withoutrowid")
 	sql, _ := gen.CreateTable(s, name, w.Prof.Fancy, wr, w.tableNames())
 	w.Begin()
 	ok := w.Exec(sql)
 	if ok && s.Chance(w.Prof.LongKeys, 10, "longkeys") {
-		w.longKey[strings.ToLower(name)] = true
+		w.longKey[fold.Lower(name)] = true
 	}
 	w.Commit()
 	if !ok {
@@ -276,7 +295,7 @@ func (w *World) CreateIndex(table string) {
 			}
 			h["exprs"] = ex
 		}
-		w.Hints[strings.ToLower(name)] = h
+		w.Hints[fold.Lower(name)] = h
 	}
 	w.Commit()
 }
@@ -295,7 +314,7 @@ func rowidAliasCol(t *sq.Table) int {
 			n++
 		}
 	}
-	if n == 1 && strings.EqualFold(t.Columns[pk].Type, "INTEGER") {
+	if n == 1 && fold.Equal(t.Columns[pk].Type, "INTEGER") {
 		return pk
 	}
 	return -1
@@ -336,7 +355,7 @@ func (w *World) genValueFor(t *sq.Table, ci int, long bool, tag int) sq.Val {
 		return v
 	}
 	mix := gen.DefaultMix
-	ty := strings.ToUpper(c.Type)
+	ty := fold.Upper(c.Type)
 	switch {
 	case strings.Contains(ty, "INT"):
 		mix = [5]int{1, 10, 2, 3, 1}
@@ -360,7 +379,7 @@ func (w *World) InsertRows(table string, n int) {
 		return
 	}
 	s := w.S
-	key := strings.ToLower(t.Name)
+	key := fold.Lower(t.Name)
 	if len(t.Rowids) > 0 && t.Rowids[len(t.Rowids)-1] >= math.MaxInt64-1000000 {
 		// after the maximum rowid SQLite allocates rowids at random: never rely on it
 		w.hasMax[key] = true
@@ -545,11 +564,11 @@ func (w *World) Step() {
 			_ = idx
 			v = gen.Value(s, gen.DefaultMix)
 		}
-		if rowidAliasCol(t) >= 0 && strings.EqualFold(t.Columns[rowidAliasCol(t)].Name, cols[ci]) {
+		if rowidAliasCol(t) >= 0 && fold.Equal(t.Columns[rowidAliasCol(t)].Name, cols[ci]) {
 			// updating the rowid alias: use an integer
 			v = w.genRowid(t)
 			if v.(int64) >= math.MaxInt64-1000000 {
-				w.hasMax[strings.ToLower(t.Name)] = true
+				w.hasMax[fold.Lower(t.Name)] = true
 			}
 		}
 		w.Begin()
@@ -586,7 +605,7 @@ func (w *World) Step() {
 			n := names[s.Draw(len(names), "dropix")]
 			w.Begin()
 			if w.Exec("DROP INDEX " + gen.Quote(n)) {
-				delete(w.Hints, strings.ToLower(n))
+				delete(w.Hints, fold.Lower(n))
 			}
 			w.Commit()
 		}
@@ -605,8 +624,8 @@ func (w *World) Step() {
 		nn := w.newName("r")
 		w.Begin()
 		if w.Exec("ALTER TABLE " + gen.Quote(t.Name) + " RENAME TO " + gen.Quote(nn)) {
-			w.hasMax[strings.ToLower(nn)] = w.hasMax[strings.ToLower(t.Name)]
-			w.longKey[strings.ToLower(nn)] = w.longKey[strings.ToLower(t.Name)]
+			w.hasMax[fold.Lower(nn)] = w.hasMax[fold.Lower(t.Name)]
+			w.longKey[fold.Lower(nn)] = w.longKey[fold.Lower(t.Name)]
 		}
 		w.Commit()
 	case 9:
